@@ -2,6 +2,7 @@ import GroupbyVerif.Lemmas.Factorize
 import GroupbyVerif.Lemmas.Monotonic
 import GroupbyVerif.LoopBridge.CountingSort
 import GroupbyVerif.LoopBridge.WeightCode
+import GroupbyVerif.LoopBridge.MonoFact
 
 /-!
 # C02 — Factorization is a faithful partition of the rows
@@ -539,6 +540,25 @@ theorem source_weight_code_sum (k : Kind) (cs : List Int) (shape : List Nat) (hl
     · intro hex
       have : cs.any (fun c => c == -1) = true := by simpa using hex
       rw [ha'] at this; cases this
+
+/-- **the translated `_monotonic_factorization` is the run detection `monotonicFactorization` on the concatenated
+chunks** (cut-off, codes of the sorted prefix, labels), for any chunking - empty chunks anywhere - below `2^32` rows:
+`Generated.Loops.monotonic_factorization` is regenerated from `factorization.py` on every run.  With
+`monotonic_factorization_faithful` / `monotonic_codes_eq_iff` / `monotonic_null_first` this makes the sorted-prefix
+route a statement about the source: the prefix ends at the first decrease or the first null (`x != x`), labels are
+strictly increasing and the label at a row's code is the row's key.  The translation's error flag is raised only for
+a one-row input (`return i + 1` reads the variable of a loop that did not run; numba returns the right value) -/
+theorem source_monotonic_eq_model (k : Kind) (chunks : List (List Val)) (htot : (chunks.flatten.length : Int) < 2 ^ 32) :
+    let r := Generated.Loops.monotonic_factorization k chunks chunks.flatten.length
+    LoopBridge.MAgree r.1 (monotonicFactorization Val.lt Val.gt (fun x => Val.neF x x) chunks.flatten) ∧
+      (chunks.flatten.length ≠ 1 → r.2 = false) :=
+  LoopBridge.monotonic_factorization_eq k chunks htot
+
+/-- non-vacuity: chunks [[], [1, 1], [], [3, NaN, 5]]: prefix of length 3, codes 0 0 1, labels 1 3 -/
+example :
+    let r := Generated.Loops.monotonic_factorization .f [[], [.num 1, .num 1], [], [.num 3, .nan, .num 5]] 5
+    (r.1.1, (List.range 3).map (fun (j : Nat) => r.1.2.1 (j : Int)), (List.range 2).map (fun (j : Nat) => r.1.2.2.1 (j : Int)),
+      r.1.2.2.2, r.2) = (3, [0, 0, 1], [.num 1, .num 3], 2, false) := by decide
 
 /-- non-vacuity: codes (2, -1) and (2, 1) under shape (3, 4) -/
 example : (Generated.Loops.weight_code_sum .f 2 (arrOf [2, -1] 0) 2 (arrOf [4, 1] 0),
